@@ -66,10 +66,6 @@ def AtomsOk (e : Env) : Prop :=
   ∀ (i : Nat) (t : PTok), e.toks[i]? = some t →
     t.ty ≤ 6 ∧ (t.ty = 5 → NumOk t) ∧ (t.ty = 0 → e.strict = true → IdentOk t)
 
-/-- no comment stands directly in front of a `/begin` -/
-def NoCommentBeforeBegin (e : Env) : Prop :=
-  ∀ (i : Nat) (t t' : PTok), e.toks[i]? = some t → e.toks[i + 1]? = some t' → t.ty = 6 → t'.ty ≠ 1
-
 /-- the tokens consumed between `s` and `s'` do not change the state of the scanner -/
 def Neutral (e : Env) (s s' : PState) : Prop :=
   ∀ st, scan .normal st (e.toks.toList.drop s.pos) = scan .normal st (e.toks.toList.drop s'.pos)
@@ -666,7 +662,18 @@ theorem LSpec.step {f32 : List Char → Option (List Char)} {acc : List (TItem G
   | panic => trivial
   | fuel => trivial
 
-theorem l_spec_step (f32 : List Char → Option (List Char)) (hcb : NoCommentBeforeBegin e) {fuel : Nat}
+theorem LSpec.skip {f32 : List Char → Option (List Char)} {acc : List (TItem Gen)} {s s1 : PState}
+    {r : PRes (List (TItem Gen))} (hrel : Rel e f32 s s1 []) (hn : Neutral e s s1)
+    (h : LSpec e f32 acc s1 r) : LSpec e f32 acc s r := by
+  cases r with
+  | ok items s' =>
+    obtain ⟨new, hg, hr, hn', hstop⟩ := h
+    exact ⟨new, hg, by simpa using hrel.trans hr, hn.trans hn', hstop⟩
+  | err d s' => exact Bad.of_neutral hn h
+  | panic => trivial
+  | fuel => trivial
+
+theorem l_spec_step (f32 : List Char → Option (List Char)) {fuel : Nat}
     (ih : AllSpec e f32 fuel) (ctx : Ctx) (acc : List (TItem Gen)) (s : PState) (hs : s.pos ≤ e.toks.size) :
     LSpec e f32 acc s (unknownTsLoop (fuel + 1) ctx acc e s) := by
   rw [unknownTsLoop.eq_def]
@@ -678,11 +685,9 @@ theorem l_spec_step (f32 : List Char → Option (List Char)) (hcb : NoCommentBef
   cases ho with
   | panic => trivial
   | comment tok off s1 ht h6 hp =>
-    refine ⟨[], by simp, (rel_adv_comment ht h6).samePos (by rw [hp]; rfl),
-      (neutral_atom ht (by omega) (by omega)).samePos (by rw [hp]; rfl), ?_⟩
-    intro t ht' h1
-    rw [hp] at ht'
-    exact absurd h1 (hcb _ _ _ ht ht' h6)
+    have hlt := lt_of_getElem?_some ht
+    exact LSpec.skip ((rel_adv_comment ht h6).samePos (by rw [hp]; rfl))
+      ((neutral_atom ht (by omega) (by omega)).samePos (by rw [hp]; rfl)) (ih.l ctx acc s1 (by omega))
   | block tok off s1 hrel hscan =>
     dsimp only
     simp only [getNextId_bind]
@@ -781,14 +786,14 @@ theorem ts_spec_step (f32 : List Char → Option (List Char)) {fuel : Nat}
           exact Bad.of_neutral (hn1.trans hn2) (hstop t ht h1)
         · exact ⟨items, rfl, by simpa using hr1.trans hr2, hn1.trans hn2⟩
 
-theorem allSpec (f32 : List Char → Option (List Char)) (hat : AtomsOk e) (hcb : NoCommentBeforeBegin e) :
+theorem allSpec (f32 : List Char → Option (List Char)) (hat : AtomsOk e) :
     ∀ fuel, AllSpec e f32 fuel
   | 0 => allSpec_zero f32
   | fuel + 1 =>
-    have ih := allSpec f32 hat hcb fuel
+    have ih := allSpec f32 hat fuel
     ⟨fun ctx isB acc s hs => u_spec_step f32 hat ih ctx isB acc s hs,
      fun ctx s hs => ts_spec_step f32 ih ctx s hs,
-     fun ctx acc s hs => l_spec_step f32 hcb ih ctx acc s hs⟩
+     fun ctx acc s hs => l_spec_step f32 ih ctx acc s hs⟩
 
 def USSpec (e : Env) (f32 : List Char → Option (List Char)) (s : PState) : PRes Gen → Prop
   | .ok g s' => Rel e f32 s s' (values true g) ∧ Neutral e s s' ∧ AtEnd e s'
@@ -810,11 +815,11 @@ theorem USSpec.of_u {f32 : List Char → Option (List Char)} {s : PState} {r : P
   | panic => trivial
   | fuel => trivial
 
-theorem unknownStart_spec (f32 : List Char → Option (List Char)) (hat : AtomsOk e) (hcb : NoCommentBeforeBegin e)
+theorem unknownStart_spec (f32 : List Char → Option (List Char)) (hat : AtomsOk e)
     (ctx : Ctx) (s : PState) (hs : s.pos ≤ e.toks.size) : USSpec e f32 s (unknownStart ctx e s) := by
   unfold unknownStart
   simp only [getEnv_bind, peekToken_bind]
-  have hA := allSpec f32 hat hcb (unknownFuel e.toks.size)
+  have hA := allSpec f32 hat (unknownFuel e.toks.size)
   cases ht : e.toks[s.pos]? with
   | none => exact USSpec.of_u (hA.u ctx true [] s hs)
   | some t =>
